@@ -337,6 +337,44 @@ Proof.
     rewrite (IH _ _ _ now ps post Er Hstop). reflexivity.
 Qed.
 
+(* ---- one established connection: conn_run ---------------------------------- *)
+Inductive run_case (cfg : cap_cfg) (tls : bool) (s : strict_transport) (c : conn_script) (p : Z)
+  : conn_log * ret_class * strict_transport * option Z -> Prop :=
+| rc_handshake :
+    tls = true -> cs_hs_ok c = false ->
+    run_case cfg tls s c p (mkLog p tls true [], ROther, s, None)
+| rc_quiet outs s' err cl :
+    Forall only_writes outs -> quiet_rel cfg tls s s' ->
+    (err = RNil /\ exists now, cl = Some now /\ cs_end c = EndClosed now) \/
+    (err = ROther /\ cl = None /\ cs_end c = EndIOError) ->
+    run_case cfg tls s c p (mkLog p tls true outs, err, s', cl)
+| rc_upgrade pre p' err cl :
+    tls = false -> c_disable_sts cfg = false -> Forall only_writes pre -> (21 <= p')%Z ->
+    run_case cfg tls s c p (mkLog p tls true (pre ++ [[Upgrade]]), err,
+                            set_begin_upgrade true (set_upgrade_port p' s), cl)
+| rc_error pre v s' :
+    c_disable_sts cfg = false -> Forall only_writes pre -> policy_dropped s' ->
+    begin_upgrade s' = begin_upgrade s -> last_failed s' = last_failed s ->
+    run_case cfg tls s c p (mkLog p tls true (pre ++ [[InjectError v]]), RErrEvent, s', None).
+
+Lemma conn_run_case ord cfg tls s c p : run_case cfg tls s c p (conn_run ord cfg tls s c p).
+Proof.
+  unfold conn_run.
+  destruct (tls && negb (cs_hs_ok c)) eqn:Eh.
+  { apply andb_true_iff in Eh. destruct Eh as [-> Eh]. apply rc_handshake; [reflexivity|].
+    destruct (cs_hs_ok c); [discriminate|reflexivity]. }
+  pose proof (run_events_inv ord cfg tls (if c_tracking cfg then cs_events c else []) (cap_init s)) as Inv.
+  destruct (run_events ord cfg tls (cap_init s) (if c_tracking cfg then cs_events c else [])) as [[st outs] k].
+  unfold run_inv in Inv. cbn [fst snd cap_init st_sts] in Inv. cbn [fst snd]. destruct k.
+  - destruct Inv as [Hall [_ Q]].
+    destruct (cs_end c) as [now|] eqn:Ee; apply rc_quiet; try assumption.
+    + left. split; [reflexivity|]. exists now. split; [reflexivity|exact Ee].
+    + right. split; [reflexivity|]. split; [reflexivity|exact Ee].
+  - destruct Inv as [Ht [Hd [pre [p' [-> [Hpre [Hp ->]]]]]]].
+    destruct (cs_end c); apply rc_upgrade; assumption.
+  - destruct Inv as [Hd [pre [v [-> [Hpre [Hdrop [Hf Hb]]]]]]]. apply rc_error; assumption.
+Qed.
+
 (* ---- one Connect call: start_conn ----------------------------------------- *)
 Section Connect.
   Variable ord : list str -> list str.
@@ -348,24 +386,71 @@ Section Connect.
   Lemma server_port_disabled s : sts_enabled s = false -> server_port port s = port.
   Proof. intros H. unfold server_port. rewrite H. reflexivity. Qed.
 
+  (* the tail of internalConnect *)
+  Definition conn_tail (rest : list conn_script) (o : conn_log * ret_class * strict_transport * option Z)
+    : list conn_log * ret_class * strict_transport :=
+    let log := fst (fst (fst o)) in
+    let err := snd (fst (fst o)) in
+    let s_end := snd (fst o) in
+    if begin_upgrade s_end then
+      let rec := start_conn ord cfg port (set_begin_upgrade false s_end) rest in
+      (log :: fst (fst rec), snd (fst rec), snd rec)
+    else
+      ([log], err,
+       match err, snd o with
+       | RNil, Some now => if sts_enabled s_end then set_received now s_end else s_end
+       | _, _ => s_end
+       end).
+
+  Lemma start_conn_connected s c rest :
+    cs_dial_ok c = true ->
+    start_conn ord cfg port s (c :: rest) =
+    conn_tail rest (conn_run ord cfg (c_ssl cfg || sts_enabled s) s c (server_port port s)).
+  Proof. intros Hd. cbn [start_conn]. unfold new_conn. rewrite Hd. reflexivity. Qed.
+
+  Lemma start_conn_failed s c rest :
+    cs_dial_ok c = false ->
+    start_conn ord cfg port s (c :: rest) =
+    ([mkLog (server_port port s) (c_ssl cfg || sts_enabled s) false []],
+     (if sts_enabled s then RSTSUpgradeFailed else ROther),
+     if sts_expired (cs_dial_now c) s && negb (c_disable_fallback cfg)
+     then sts_reset (set_last_failed (cs_dial_now c) s) else s).
+  Proof. intros Hd. cbn [start_conn]. unfold new_conn. rewrite Hd. reflexivity. Qed.
+
+  (* Connect never returns with beginUpgrade set (given it was not set when it started) *)
+  Lemma start_conn_begin conns : forall s,
+    begin_upgrade s = false -> begin_upgrade (snd (start_conn ord cfg port s conns)) = false.
+  Proof.
+    induction conns as [|c rest IH]; intros s Hb; [exact Hb|].
+    destruct (cs_dial_ok c) eqn:Hd.
+    - rewrite (start_conn_connected s c rest Hd). unfold conn_tail.
+      set (o := conn_run ord cfg (c_ssl cfg || sts_enabled s) s c (server_port port s)).
+      destruct (begin_upgrade (snd (fst o))) eqn:Eb.
+      + cbn [snd]. apply IH. reflexivity.
+      + cbn [snd]. destruct (snd (fst (fst o))), (snd o); try exact Eb.
+        destruct (sts_enabled (snd (fst o))); [cbn [begin_upgrade set_received]|]; exact Eb.
+    - rewrite (start_conn_failed s c rest Hd). cbn [snd].
+      destruct (sts_expired (cs_dial_now c) s && negb (c_disable_fallback cfg)); [cbn|]; exact Hb.
+  Qed.
+
   (* the first dial of a call goes where the policy held at that moment says *)
   Lemma start_conn_first s c rest :
     exists l logs ret s',
       start_conn ord cfg port s (c :: rest) = (l :: logs, ret, s') /\
       dialled l (server_port port s) (c_ssl cfg || sts_enabled s) /\ l_connected l = cs_dial_ok c.
   Proof.
-    cbn [start_conn]. unfold new_conn.
-    destruct (cs_dial_ok c); cbn [negb].
-    2:{ do 4 eexists. split; [reflexivity|]. repeat split. }
-    destruct ((c_ssl cfg || sts_enabled s) && negb (cs_hs_ok c)).
-    { do 4 eexists. split; [reflexivity|]. repeat split. }
-    destruct (run_events ord cfg (c_ssl cfg || sts_enabled s) (cap_init s)
-                         (if c_tracking cfg then cs_events c else [])) as [[st outs] k].
-    cbn [fst snd]. destruct k.
-    - destruct (cs_end c); do 4 eexists; (split; [reflexivity|]); repeat split.
-    - destruct (start_conn ord cfg port (set_begin_upgrade false (st_sts st)) rest) as [[lg rt] sf].
-      do 4 eexists. split; [reflexivity|]. repeat split.
-    - do 4 eexists. split; [reflexivity|]. repeat split.
+    destruct (cs_dial_ok c) eqn:Hd.
+    2:{ rewrite (start_conn_failed s c rest Hd). do 4 eexists. split; [reflexivity|]. repeat split. }
+    rewrite (start_conn_connected s c rest Hd). unfold conn_tail.
+    pose proof (conn_run_case ord cfg (c_ssl cfg || sts_enabled s) s c (server_port port s)) as K.
+    destruct (conn_run ord cfg (c_ssl cfg || sts_enabled s) s c (server_port port s)) as [[[log err] s_end] cl].
+    cbn [fst snd].
+    assert (HL : dialled log (server_port port s) (c_ssl cfg || sts_enabled s) /\ l_connected log = true).
+    { inversion K; subst; repeat split. }
+    destruct (begin_upgrade s_end).
+    - destruct (start_conn ord cfg port (set_begin_upgrade false s_end) rest) as [[lg rt] sf].
+      do 4 eexists. split; [reflexivity|exact HL].
+    - do 4 eexists. split; [reflexivity|exact HL].
   Qed.
 
   (* C10_no_downgrade: a failed dial under a policy *)
@@ -376,7 +461,7 @@ Section Connect.
      if sts_expired (cs_dial_now c) s && negb (c_disable_fallback cfg)
      then sts_reset (set_last_failed (cs_dial_now c) s) else s).
   Proof.
-    intros He Hd. cbn [start_conn]. unfold new_conn. rewrite Hd, He. cbn [negb].
+    intros He Hd. rewrite (start_conn_failed s c rest Hd), He.
     rewrite (server_port_enabled s He), orb_true_r. reflexivity.
   Qed.
 
@@ -392,15 +477,17 @@ Section Connect.
 
   (* … and a failed handshake: an error, no other dial, the policy untouched *)
   Lemma no_downgrade_handshake s c rest :
+    begin_upgrade s = false ->
     sts_enabled s = true -> cs_dial_ok c = true -> cs_hs_ok c = false ->
     start_conn ord cfg port s (c :: rest) = ([mkLog (upgrade_port s) true true []], ROther, s).
   Proof.
-    intros He Hd Hh. cbn [start_conn]. unfold new_conn. rewrite Hd, He, Hh. cbn [negb].
-    rewrite (server_port_enabled s He), orb_true_r. reflexivity.
+    intros Hb He Hd Hh. rewrite (start_conn_connected s c rest Hd). unfold conn_tail, conn_run.
+    rewrite He, Hh, orb_true_r. cbn [negb andb fst snd]. rewrite Hb, (server_port_enabled s He). reflexivity.
   Qed.
 
   (* on a TLS connection there is never an upgrade, hence one dial per call *)
   Lemma tls_single_dial s c rest :
+    begin_upgrade s = false ->
     c_ssl cfg || sts_enabled s = true ->
     exists l ret s', start_conn ord cfg port s (c :: rest) = ([l], ret, s') /\
                      dialled l (server_port port s) true /\
@@ -410,60 +497,81 @@ Section Connect.
                       (ret = RSTSUpgradeFailed \/ ret = ROther) /\ cs_dial_ok c = false /\
                       sts_expired (cs_dial_now c) s = true /\ c_disable_fallback cfg = false /\ policy_dropped s').
   Proof.
-    intros Ht. cbn [start_conn]. unfold new_conn. rewrite Ht.
-    destruct (cs_dial_ok c) eqn:Hd; cbn [negb].
-    2:{ do 3 eexists. split; [reflexivity|]. split; [split; reflexivity|]. split.
+    intros Hb Ht.
+    destruct (cs_dial_ok c) eqn:Hd.
+    2:{ rewrite (start_conn_failed s c rest Hd), Ht.
+        do 3 eexists. split; [reflexivity|]. split; [split; reflexivity|]. split.
         - destruct (sts_enabled s); discriminate.
         - intros _. destruct (sts_expired (cs_dial_now c) s) eqn:Ex, (c_disable_fallback cfg) eqn:Ef; cbn [andb negb];
             try (left; reflexivity).
           right. split; [destruct (sts_enabled s); auto|]. repeat split. }
-    cbn [andb]. destruct (negb (cs_hs_ok c)).
-    { do 3 eexists. split; [reflexivity|]. split; [split; reflexivity|]. split; [discriminate|]. intros _. left; reflexivity. }
-    pose proof (run_events_inv ord cfg true (if c_tracking cfg then cs_events c else []) (cap_init s)) as Inv.
-    destruct (run_events ord cfg true (cap_init s) (if c_tracking cfg then cs_events c else [])) as [[st outs] k].
-    unfold run_inv in Inv. cbn [fst snd cap_init st_sts] in Inv. cbn [fst snd]. destruct k.
-    - destruct Inv as [_ [_ Q]]. pose proof (quiet_rel_port _ _ _ _ Q) as Hp.
-      destruct (cs_end c); do 3 eexists; (split; [reflexivity|]); (split; [split; reflexivity|]);
-        (split; [discriminate|]); intros _; left.
-      + destruct (sts_enabled (st_sts st)); [cbn [upgrade_port set_received]|]; exact Hp.
+    rewrite (start_conn_connected s c rest Hd), Ht. unfold conn_tail.
+    pose proof (conn_run_case ord cfg true s c (server_port port s)) as K.
+    destruct (conn_run ord cfg true s c (server_port port s)) as [[[log err] s_end] cl].
+    cbn [fst snd].
+    inversion K as [Ht' Hh E | outs s' err' cl' Hall Q Hend E | pre p' err' cl' Hf | pre v s' Hdis Hpre Hdrop Hb' Hf E]; subst.
+    - rewrite Hb. do 3 eexists. split; [reflexivity|]. split; [split; reflexivity|]. split; [discriminate|].
+      intros _. left; reflexivity.
+    - rewrite (quiet_rel_begin _ _ _ _ Q), Hb. pose proof (quiet_rel_port _ _ _ _ Q) as Hp.
+      do 3 eexists. split; [reflexivity|]. split; [split; reflexivity|].
+      destruct Hend as [[-> [now [-> _]]]|[-> [-> _]]]; (split; [discriminate|]); intros _; left.
+      + destruct (sts_enabled s_end); [cbn [upgrade_port set_received]|]; exact Hp.
       + exact Hp.
-    - destruct Inv as [Hf _]. discriminate.
-    - destruct Inv as [_ [pre [v [_ [_ [Hdrop _]]]]]].
-      do 3 eexists. split; [reflexivity|]. split; [split; reflexivity|]. split; [intros _; exact Hdrop|].
-      intros H; contradiction.
+    - discriminate.
+    - rewrite Hb', Hb. do 3 eexists. split; [reflexivity|]. split; [split; reflexivity|].
+      split; [intros _; exact Hdrop|]. intros H; contradiction.
   Qed.
 
   (* C10_persist, one call: while a policy is held the call dials its port with TLS, once *)
   Lemma persist_call s c rest :
-    sts_enabled s = true ->
+    begin_upgrade s = false -> sts_enabled s = true ->
     exists l ret s', start_conn ord cfg port s (c :: rest) = ([l], ret, s') /\
                      dialled l (upgrade_port s) true.
   Proof.
-    intros He. destruct (tls_single_dial s c rest) as [l [ret [s' [E [D _]]]]].
+    intros Hb He. destruct (tls_single_dial s c rest Hb) as [l [ret [s' [E [D _]]]]].
     { rewrite He. apply orb_true_r. }
     exists l, ret, s'. split; [exact E|]. rewrite <- (server_port_enabled s He). exact D.
   Qed.
 
   (* … and what can end the retention *)
   Lemma persist_retained s c rest :
-    sts_enabled s = true ->
+    begin_upgrade s = false -> sts_enabled s = true ->
     let r := start_conn ord cfg port s (c :: rest) in
     (sts_enabled (snd r) = true /\ upgrade_port (snd r) = upgrade_port s) \/
     (snd (fst r) = RSTSUpgradeFailed /\ cs_dial_ok c = false /\
      sts_expired (cs_dial_now c) s = true /\ c_disable_fallback cfg = false) \/
     (snd (fst r) = RErrEvent /\ policy_dropped (snd r)).
   Proof.
-    intros He r. subst r.
+    intros Hb He r. subst r.
     destruct (cs_dial_ok c) eqn:Hd.
     2:{ rewrite (no_downgrade_dial s c rest He Hd). cbn [fst snd].
         destruct (sts_expired (cs_dial_now c) s), (c_disable_fallback cfg); cbn [andb negb];
           try (left; split; [exact He|reflexivity]). right; left. repeat split. }
-    destruct (tls_single_dial s c rest) as [l [ret [s' [E [_ [Herr Hok]]]]]].
+    destruct (tls_single_dial s c rest Hb) as [l [ret [s' [E [_ [Herr Hok]]]]]].
     { rewrite He. apply orb_true_r. }
     rewrite E. cbn [fst snd].
     destruct ret; try (right; right; split; [reflexivity|apply Herr; reflexivity]);
       (destruct Hok as [Hp|[_ [Hd' _]]]; [discriminate| |congruence]);
       left; (split; [|exact Hp]); unfold sts_enabled in *; rewrite Hp; exact He.
+  Qed.
+
+  (* the connection on which the upgrade happens, whatever its teardown reports *)
+  Lemma start_conn_upgrade_eq s c rest st outs :
+    c_ssl cfg = false -> sts_enabled s = false -> cs_dial_ok c = true -> c_tracking cfg = true ->
+    run_events ord cfg false (cap_init s) (cs_events c) = (st, outs, StopUpgrade) ->
+    start_conn ord cfg port s (c :: rest) =
+    (mkLog port false true outs :: fst (fst (start_conn ord cfg port (set_begin_upgrade false (st_sts st)) rest)),
+     snd (fst (start_conn ord cfg port (set_begin_upgrade false (st_sts st)) rest)),
+     snd (start_conn ord cfg port (set_begin_upgrade false (st_sts st)) rest)).
+  Proof.
+    intros Hssl He Hd Htr Hrun.
+    pose proof (run_events_inv ord cfg false (cs_events c) (cap_init s)) as Inv.
+    rewrite Hrun in Inv. unfold run_inv in Inv. cbn [fst snd cap_init st_sts] in Inv.
+    destruct Inv as [_ [_ [pre [p [_ [_ [_ Es]]]]]]].
+    rewrite (start_conn_connected s c rest Hd). unfold conn_tail, conn_run.
+    rewrite Hssl, He, Htr. cbn [orb andb]. rewrite Hrun. cbn [fst snd].
+    rewrite (server_port_disabled s He).
+    destruct (cs_end c); cbn [fst snd]; rewrite Es; cbn [begin_upgrade set_begin_upgrade]; reflexivity.
   Qed.
 
   (* C10_upgrade, one call *)
@@ -491,15 +599,9 @@ Section Connect.
     assert (En : sts_enabled (set_begin_upgrade false (set_upgrade_port p s)) = true).
     { unfold sts_enabled. cbn [upgrade_port set_begin_upgrade set_upgrade_port]. lia. }
     split; [|split; [exact En|split; [reflexivity|]]].
-    - cbn [start_conn]. unfold new_conn. rewrite Hd, Hssl, He, Htr. cbn [negb orb andb].
-      rewrite Hrun. cbn [fst snd]. rewrite Es.
-      rewrite (server_port_disabled s He).
-      change (set_begin_upgrade false (set_begin_upgrade true (set_upgrade_port p s)))
-        with (set_begin_upgrade false (set_upgrade_port p s)).
-      destruct (start_conn ord cfg port (set_begin_upgrade false (set_upgrade_port p s)) rest) as [[lg rt] sf].
-      reflexivity.
+    - rewrite (start_conn_upgrade_eq s c rest st outs Hssl He Hd Htr Hrun). rewrite Es. reflexivity.
     - intros c2 rest2 ->.
-      destruct (tls_single_dial (set_begin_upgrade false (set_upgrade_port p s)) c2 rest2) as [l [ret [s' [E [D _]]]]].
+      destruct (tls_single_dial (set_begin_upgrade false (set_upgrade_port p s)) c2 rest2 eq_refl) as [l [ret [s' [E [D _]]]]].
       { rewrite En. apply orb_true_r. }
       destruct (start_conn_first (set_begin_upgrade false (set_upgrade_port p s)) c2 rest2)
         as [l0 [logs0 [ret0 [s0 [E0 [_ Hc0]]]]]].
@@ -508,8 +610,20 @@ Section Connect.
       rewrite (server_port_enabled _ En) in D. exact D.
   Qed.
 
+  (* the teardown of the connection that is given up does not matter (52091d0) *)
+  Lemma upgrade_teardown_irrelevant s c rest st outs e1 e2 :
+    c_ssl cfg = false -> sts_enabled s = false -> cs_dial_ok c = true -> c_tracking cfg = true ->
+    run_events ord cfg false (cap_init s) (cs_events c) = (st, outs, StopUpgrade) ->
+    start_conn ord cfg port s (with_end e1 c :: rest) = start_conn ord cfg port s (with_end e2 c :: rest).
+  Proof.
+    intros Hssl He Hd Htr Hrun.
+    rewrite (start_conn_upgrade_eq s (with_end e1 c) rest st outs Hssl He Hd Htr Hrun).
+    rewrite (start_conn_upgrade_eq s (with_end e2 c) rest st outs Hssl He Hd Htr Hrun). reflexivity.
+  Qed.
+
   (* C10_invalid, one call *)
   Lemma invalid_connect s c rest st outs :
+    begin_upgrade s = false ->
     cs_dial_ok c = true -> (c_ssl cfg || sts_enabled s = true -> cs_hs_ok c = true) -> c_tracking cfg = true ->
     run_events ord cfg (c_ssl cfg || sts_enabled s) (cap_init s) (cs_events c) = (st, outs, StopError) ->
     start_conn ord cfg port s (c :: rest) =
@@ -517,44 +631,47 @@ Section Connect.
     policy_dropped (st_sts st) /\ server_port port (st_sts st) = port /\
     exists pre v, outs = pre ++ [[InjectError v]] /\ Forall only_writes pre.
   Proof.
-    intros Hd Hh Htr Hrun.
+    intros Hb Hd Hh Htr Hrun.
     pose proof (run_events_inv ord cfg (c_ssl cfg || sts_enabled s) (cs_events c) (cap_init s)) as Inv.
     rewrite Hrun in Inv. unfold run_inv in Inv. cbn [fst snd cap_init st_sts] in Inv.
-    destruct Inv as [_ [pre [v [Eouts [Hpre [Hdrop _]]]]]].
+    destruct Inv as [_ [pre [v [Eouts [Hpre [Hdrop [_ Hb']]]]]]].
     split; [|split; [exact Hdrop|split]].
-    - cbn [start_conn]. unfold new_conn. rewrite Hd, Htr. cbn [negb].
-      destruct (c_ssl cfg || sts_enabled s) eqn:Et.
-      + rewrite (Hh eq_refl). cbn [negb andb]. rewrite Hrun. reflexivity.
-      + cbn [andb]. rewrite Hrun. reflexivity.
+    - rewrite (start_conn_connected s c rest Hd). unfold conn_tail, conn_run. rewrite Htr.
+      assert (Eh : (c_ssl cfg || sts_enabled s) && negb (cs_hs_ok c) = false).
+      { destruct (c_ssl cfg || sts_enabled s) eqn:Et; [rewrite (Hh eq_refl)|]; reflexivity. }
+      rewrite Eh, Hrun. cbn [fst snd]. rewrite Hb', Hb. reflexivity.
     - apply server_port_disabled. apply Hdrop.
     - exists pre, v. split; assumption.
   Qed.
 
   (* C10_disabled, one call: with DisableSTS nothing of the machinery runs *)
   Lemma disabled_connect s c rest :
+    begin_upgrade s = false ->
     c_disable_sts cfg = true ->
     exists l ret s', start_conn ord cfg port s (c :: rest) = ([l], ret, s') /\
                      dialled l (server_port port s) (c_ssl cfg || sts_enabled s) /\
                      ret <> RErrEvent /\ Forall only_writes (l_outs l) /\
                      (sts_enabled s = false -> sts_enabled s' = false /\ ret <> RSTSUpgradeFailed).
   Proof.
-    intros Hdis. cbn [start_conn]. unfold new_conn.
-    destruct (cs_dial_ok c) eqn:Hd; cbn [negb].
-    2:{ do 3 eexists. split; [reflexivity|]. split; [split; reflexivity|]. split.
+    intros Hb Hdis.
+    destruct (cs_dial_ok c) eqn:Hd.
+    2:{ rewrite (start_conn_failed s c rest Hd).
+        do 3 eexists. split; [reflexivity|]. split; [split; reflexivity|]. split.
         - destruct (sts_enabled s); discriminate.
         - split; [constructor|]. intros He. rewrite He. split; [|discriminate].
           destruct (sts_expired (cs_dial_now c) s && negb (c_disable_fallback cfg)); [reflexivity|exact He]. }
-    destruct ((c_ssl cfg || sts_enabled s) && negb (cs_hs_ok c)).
-    { do 3 eexists. split; [reflexivity|]. split; [split; reflexivity|]. split; [discriminate|].
-      split; [constructor|]. intros He. split; [exact He|discriminate]. }
-    pose proof (run_events_inv ord cfg (c_ssl cfg || sts_enabled s) (if c_tracking cfg then cs_events c else []) (cap_init s)) as Inv.
-    destruct (run_events ord cfg (c_ssl cfg || sts_enabled s) (cap_init s) (if c_tracking cfg then cs_events c else [])) as [[st outs] k].
-    unfold run_inv in Inv. cbn [fst snd cap_init st_sts] in Inv. cbn [fst snd]. destruct k.
-    - destruct Inv as [Hall [_ Q]]. pose proof (quiet_rel_disabled _ _ _ _ Hdis Q) as Es.
-      destruct (cs_end c); do 3 eexists; (split; [reflexivity|]); (split; [split; reflexivity|]);
-        (split; [discriminate|]); (split; [exact Hall|]); intros He; rewrite Es; rewrite ?He; (split; [first [exact He|reflexivity]|discriminate]).
-    - destruct Inv as [_ [Hf _]]. congruence.
-    - destruct Inv as [Hf _]. congruence.
+    rewrite (start_conn_connected s c rest Hd). unfold conn_tail.
+    pose proof (conn_run_case ord cfg (c_ssl cfg || sts_enabled s) s c (server_port port s)) as K.
+    destruct (conn_run ord cfg (c_ssl cfg || sts_enabled s) s c (server_port port s)) as [[[log err] s_end] cl].
+    cbn [fst snd].
+    inversion K as [Ht' Hh E | outs s' err' cl' Hall Q Hend E | pre p' err' cl' Hf Hd' | pre v s' Hd' ]; subst;
+      try congruence.
+    - rewrite Hb. do 3 eexists. split; [reflexivity|]. split; [split; reflexivity|]. split; [discriminate|].
+      split; [constructor|]. intros He. split; [exact He|discriminate].
+    - pose proof (quiet_rel_disabled _ _ _ _ Hdis Q) as Es. subst s_end. rewrite Hb.
+      do 3 eexists. split; [reflexivity|]. split; [split; reflexivity|].
+      destruct Hend as [[-> [now [-> _]]]|[-> [-> _]]]; (split; [discriminate|]); (split; [exact Hall|]);
+        intros He; rewrite ?He; (split; [first [exact He|reflexivity]|discriminate]).
   Qed.
 End Connect.
 
@@ -564,31 +681,18 @@ Section FromAck.
   Variable cfg : cap_cfg.
   Variable port : Z.
 
-  Lemma start_conn_upgrade_eq s c rest st outs :
-    c_ssl cfg = false -> sts_enabled s = false -> cs_dial_ok c = true -> c_tracking cfg = true ->
-    run_events ord cfg false (cap_init s) (cs_events c) = (st, outs, StopUpgrade) ->
-    start_conn ord cfg port s (c :: rest) =
-    (mkLog port false true outs :: fst (fst (start_conn ord cfg port (set_begin_upgrade false (st_sts st)) rest)),
-     snd (fst (start_conn ord cfg port (set_begin_upgrade false (st_sts st)) rest)),
-     snd (start_conn ord cfg port (set_begin_upgrade false (st_sts st)) rest)).
-  Proof.
-    intros Hssl He Hd Htr Hrun.
-    cbn [start_conn]. unfold new_conn. rewrite Hd, Hssl, He, Htr. cbn [negb orb andb].
-    rewrite Hrun. cbn [fst snd]. rewrite (server_port_disabled port s He).
-    destruct (start_conn ord cfg port (set_begin_upgrade false (st_sts st)) rest) as [[lg rt] sf]. reflexivity.
-  Qed.
-
   Lemma next_dial_tls s1 c2 rest2 :
-    sts_enabled s1 = true ->
+    begin_upgrade s1 = false -> sts_enabled s1 = true ->
     exists l ret s', start_conn ord cfg port s1 (c2 :: rest2) = ([l], ret, s') /\
                      dialled l (upgrade_port s1) true /\ l_connected l = cs_dial_ok c2.
   Proof.
-    intros En. destruct (persist_call ord cfg port s1 c2 rest2 En) as [l [ret [s' [E D]]]].
+    intros Hb En. destruct (persist_call ord cfg port s1 c2 rest2 Hb En) as [l [ret [s' [E D]]]].
     destruct (start_conn_first ord cfg port s1 c2 rest2) as [l0 [logs0 [ret0 [s0 [E0 [_ Hc0]]]]]].
     rewrite E in E0. injection E0 as <- _ _ _. exists l, ret, s'. repeat split; try apply D; assumption.
   Qed.
 
-  (* C10_upgrade with the hypothesis on the acknowledgement itself *)
+  (* C10_upgrade with the hypothesis on the acknowledgement itself; no hypothesis on how the
+     teardown of the plaintext connection ends (cs_end c is arbitrary) *)
   Lemma upgrade_from_ack s c rest pre now a toks post st1 outs1 p :
     c_ssl cfg = false -> sts_enabled s = false -> cs_dial_ok c = true -> c_tracking cfg = true ->
     c_disable_sts cfg = false ->
@@ -616,7 +720,7 @@ Section FromAck.
     { rewrite Hev. rewrite (run_events_app ord cfg false pre _ _ _ now (ack_params a toks) post Hpre).
       - rewrite Hstep. reflexivity.
       - rewrite Hstep. discriminate. }
-    pose proof (start_conn_upgrade_eq s c rest _ _ Hssl He Hd Htr Hrun) as Eq.
+    pose proof (start_conn_upgrade_eq ord cfg port s c rest _ _ Hssl He Hd Htr Hrun) as Eq.
     cbn [st_sts] in Eq. rewrite Q1 in Eq.
     change (set_begin_upgrade false (set_begin_upgrade true (set_upgrade_port p s)))
       with (set_begin_upgrade false (set_upgrade_port p s)) in Eq.
@@ -624,12 +728,13 @@ Section FromAck.
     assert (En : sts_enabled (set_begin_upgrade false (set_upgrade_port p s)) = true).
     { unfold sts_enabled. cbn [upgrade_port set_begin_upgrade set_upgrade_port]. lia. }
     cbv zeta. split; [exact Eq|]. split; [exact Hall1|]. split; [exact En|]. split; [reflexivity|].
-    intros c2 rest2 ->. exact (next_dial_tls _ c2 rest2 En).
+    intros c2 rest2 ->. exact (next_dial_tls (set_begin_upgrade false (set_upgrade_port p s)) c2 rest2 eq_refl En).
   Qed.
 
   (* C10_invalid with the hypothesis on the acknowledgement itself *)
   Lemma invalid_from_ack s c rest pre now a toks post st1 outs1 :
     let tls := c_ssl cfg || sts_enabled s in
+    begin_upgrade s = false ->
     cs_dial_ok c = true -> (tls = true -> cs_hs_ok c = true) -> c_tracking cfg = true ->
     c_disable_sts cfg = false ->
     cs_events c = pre ++ (now, ack_params a toks) :: post ->
@@ -641,7 +746,7 @@ Section FromAck.
         ([mkLog (server_port port s) tls true (outs1 ++ [[InjectError (advertised_policy st1)]])], RErrEvent, s') /\
       Forall only_writes outs1 /\ policy_dropped s' /\ server_port port s' = port.
   Proof.
-    intros tls Hd Hh Htr Hdis Hev Hpre Hack Hbad.
+    intros tls Hb Hd Hh Htr Hdis Hev Hpre Hack Hbad.
     pose proof (run_events_inv ord cfg tls pre (cap_init s)) as Inv1.
     rewrite Hpre in Inv1. unfold run_inv in Inv1. cbn [fst snd cap_init st_sts] in Inv1.
     destruct Inv1 as [Hall1 _].
@@ -652,26 +757,28 @@ Section FromAck.
     { rewrite Hev. rewrite (run_events_app ord cfg tls pre _ _ _ now (ack_params a toks) post Hpre).
       - rewrite Ho. reflexivity.
       - rewrite Ho. discriminate. }
-    destruct (invalid_connect ord cfg port s c rest _ _ Hd Hh Htr Hrun) as [Eq [Hdr [Hsp _]]].
+    destruct (invalid_connect ord cfg port s c rest _ _ Hb Hd Hh Htr Hrun) as [Eq [Hdr [Hsp _]]].
     eexists. split; [exact Eq|]. split; [exact Hall1|]. split; [exact Hdr|exact Hsp].
   Qed.
 End FromAck.
 
 (* ---- several Connect calls of the same client ------------------------------ *)
 Lemma persist_calls ord cfg port : forall calls s k sb c res,
+  begin_upgrade s = false ->
   nth_error (policies_before ord cfg port s calls) k = Some sb ->
   nth_error calls k = Some c -> c <> [] ->
   nth_error (connects ord cfg port s calls) k = Some res ->
   sts_enabled sb = true ->
   exists l, fst (fst res) = [l] /\ dialled l (upgrade_port sb) true.
 Proof.
-  induction calls as [|c0 r IH]; intros s k sb c res Hb Hc Hne Hr He; [destruct k; discriminate|].
+  induction calls as [|c0 r IH]; intros s k sb c res Hbs Hb Hc Hne Hr He; [destruct k; discriminate|].
   destruct k as [|k].
   - cbn in Hb, Hc, Hr. injection Hb as <-. injection Hc as <-. injection Hr as <-.
     destruct c0 as [|c1 rest]; [contradiction|].
-    destruct (persist_call ord cfg port s c1 rest He) as [l [ret [s' [E D]]]].
+    destruct (persist_call ord cfg port s c1 rest Hbs He) as [l [ret [s' [E D]]]].
     exists l. rewrite E. split; [reflexivity|exact D].
-  - cbn in Hb, Hc, Hr. exact (IH _ k sb c res Hb Hc Hne Hr He).
+  - cbn in Hb, Hc, Hr.
+    exact (IH _ k sb c res (start_conn_begin ord cfg port c0 s Hbs) Hb Hc Hne Hr He).
 Qed.
 
 (* ---- is sts requested at all? (possibleCapList) ----------------------------- *)
@@ -782,9 +889,10 @@ Proof.
     split; [|split; [exact Hs|exact Hw]].
     unfold is_ack3 in Ea. unfold handle_cap, no_sts.
     destruct (Nat.leb 2 (length params) && streqb (param1 params) s_DEL) eqn:E1.
-    { cbn [fst st_tmp st_enabled]. split; [exact Ht|]. apply fold_adel_none. exact He. }
+    { cbn [fst st_tmp st_enabled]. split; [first [exact Ht | apply fold_adel_none; exact Ht]|].
+      apply fold_adel_none. exact He. }
     destruct (Nat.leb 2 (length params) && streqb (param1 params) s_NAK) eqn:E2.
-    { cbn [fst]. split; assumption. }
+    { cbn [fst st_tmp st_enabled]. split; first [assumption | reflexivity]. }
     cbv zeta. rewrite Ea.
     assert (Htmp : aget s_sts
                      (if Nat.leb 3 (length params) && (streqb (param1 params) s_LS || streqb (param1 params) s_NEW)
@@ -815,26 +923,31 @@ Qed.
 
 (* configured SSL, one Connect call of a client that holds no policy *)
 Lemma ssl_connect ord cfg port s c rest :
+  begin_upgrade s = false ->
   c_ssl cfg = true -> aget s_sts (c_supported cfg) = None -> sts_enabled s = false ->
   honest_run ord cfg true (cap_init s) (if c_tracking cfg then cs_events c else []) ->
   exists l ret s', start_conn ord cfg port s (c :: rest) = ([l], ret, s') /\
                    dialled l port true /\ Forall only_writes (l_outs l) /\
                    ret <> RErrEvent /\ ret <> RSTSUpgradeFailed /\ sts_enabled s' = false.
 Proof.
-  intros Hssl Hsup He Hrun.
+  intros Hb Hssl Hsup He Hrun.
   assert (Hposs : forall recent, aget s_sts (possible_caps cfg recent) = None).
   { intros recent. apply possible_caps_no_sts; [exact Hsup|right; exact Hssl]. }
-  cbn [start_conn]. unfold new_conn. rewrite Hssl, He. cbn [orb]. rewrite (server_port_disabled port s He).
-  destruct (cs_dial_ok c); cbn [negb].
-  2:{ do 3 eexists. split; [reflexivity|]. split; [split; reflexivity|]. split; [constructor|].
+  destruct (cs_dial_ok c) eqn:Hd.
+  2:{ rewrite (start_conn_failed ord cfg port s c rest Hd), Hssl, He. cbn [orb].
+      rewrite (server_port_disabled port s He).
+      do 3 eexists. split; [reflexivity|]. split; [split; reflexivity|]. split; [constructor|].
       split; [discriminate|]. split; [discriminate|].
       destruct (sts_expired (cs_dial_now c) s && negb (c_disable_fallback cfg)); [reflexivity|exact He]. }
-  cbn [andb]. destruct (negb (cs_hs_ok c)).
-  { do 3 eexists. split; [reflexivity|]. split; [split; reflexivity|]. split; [constructor|].
-    split; [discriminate|]. split; [discriminate|exact He]. }
+  rewrite (start_conn_connected ord cfg port s c rest Hd), Hssl. cbn [orb].
+  rewrite (server_port_disabled port s He). unfold conn_tail, conn_run. cbn [andb].
+  destruct (negb (cs_hs_ok c)).
+  { cbn [fst snd]. rewrite Hb. do 3 eexists. split; [reflexivity|]. split; [split; reflexivity|].
+    split; [constructor|]. split; [discriminate|]. split; [discriminate|exact He]. }
   destruct (run_events_no_sts ord cfg true _ (cap_init s) Hposs (conj eq_refl eq_refl) Hrun) as [Hk [Hs Hall]].
   destruct (run_events ord cfg true (cap_init s) (if c_tracking cfg then cs_events c else [])) as [[st outs] k].
-  cbn [fst snd cap_init st_sts] in *. subst k. rewrite Hs, He.
-  destruct (cs_end c); do 3 eexists; (split; [reflexivity|]); (split; [split; reflexivity|]);
+  cbn [fst snd cap_init st_sts] in *. subst k. 
+  destruct (cs_end c); cbn [fst snd]; rewrite Hs, Hb, ?He;
+    do 3 eexists; (split; [reflexivity|]); (split; [split; reflexivity|]);
     (split; [exact Hall|]); (split; [discriminate|]); (split; [discriminate|exact He]).
 Qed.
